@@ -17,18 +17,41 @@ import (
 type stubDB struct {
 	keys []string
 	vals map[string]string
+	file *stubFile // what has reached the database file (nil for :memory:)
+}
+
+// stubFile is the persisted image of one database path: every Set appends a copy of the
+// value (as buntdb appends the command to its file), so a later in-place mutation of the
+// in-memory value is NOT in the file; reopening the path loads copies of the image.
+type stubFile struct {
+	keys []string
+	vals map[string]string
 }
 
 var (
 	stubDBs    = map[*buntdb.DB]*stubDB{}
 	stubTxs    = map[*buntdb.Tx]*stubDB{}
 	stubCaches = map[*freecache.Cache]map[string][]byte{}
+	stubFiles  = map[string]*stubFile{}
 	errStubNotFound = errors.New("not found")
 )
 
 func stubOpen(path string) (*buntdb.DB, error) {
 	db := new(buntdb.DB)
-	stubDBs[db] = &stubDB{vals: map[string]string{}}
+	d := &stubDB{vals: map[string]string{}}
+	if path != ":memory:" && path != "" {
+		f := stubFiles[path]
+		if f == nil {
+			f = &stubFile{vals: map[string]string{}}
+			stubFiles[path] = f
+		}
+		for _, k := range f.keys {
+			d.keys = append(d.keys, k)
+			d.vals[k] = string(append([]byte(nil), f.vals[k]...))
+		}
+		d.file = f
+	}
+	stubDBs[db] = d
 	return db, nil
 }
 
@@ -71,6 +94,12 @@ func stubSet(tx *buntdb.Tx, key, value string, opts *buntdb.SetOptions) (string,
 		d.keys = append(d.keys, key)
 	}
 	d.vals[key] = value
+	if d.file != nil {
+		if _, had := d.file.vals[key]; !had {
+			d.file.keys = append(d.file.keys, key)
+		}
+		d.file.vals[key] = string(append([]byte(nil), value...))
+	}
 	return prev, ok, nil
 }
 
